@@ -26,7 +26,8 @@ EXPLANATION = (
     "lock does not wedge the table: taking over the expired lock IS acquiring it (shared with C19.R3)."
     " (R6) the O_EXCL existence lock (not released when its holder dies) is reached only when neither fcntl nor msvcrt exists; (R7) an unparseable in-flight marker left by a dead writer falls back instead of aborting every later collection; (R8) the 'pointer moved' conflict of the CAS path is raised only on a parsed pointer (a creator that died before the first pointer write does not wedge the table)."
     ' (R9/R10) write-once namespace and who-may-delete censuses (shared with C09.R1/R3): every file a dying process can leave is the pointer, a marker or a fresh name, and recovery / maintenance code never deletes on its own judgement.'
-    ' (R13) storage effects are synchronous (C16.R9).')
+    ' (R13) storage effects are synchronous (C16.R9).'
+    " (R14) lock ages are UTC-correct (C20.R11, interprocedural); (R15) the fallback lock's age is wall-clock now minus mtime (C19.R11).")
 NOT_DECIDED = ("the reopen-and-compare statement over every crash point; atomicity of os.replace / PUT; that a "
                "later collection removes only leftovers")
 
@@ -59,6 +60,14 @@ def check(ctx: Ctx) -> None:
     # runs on another thread has no place in that order
     from .c16 import no_deferred_storage_effects
     no_deferred_storage_effects(ctx, "C03.R13")
+    # "a crashed writer never wedges the table": its lock must be seen to age - on S3 the age comes from LastModified and has to
+    # be computed in UTC (a negative age on a host west of UTC keeps a dead writer's lock alive for hours)
+    from .c20 import r11_utc_ages
+    r11_utc_ages(ctx, "C03.R14")
+    # ... and where the kernel releases nothing (O_EXCL fallback) the stale breaker must be able to fire: the lock file's age is
+    # wall-clock now minus its mtime (a monotonic 'now' minus an epoch mtime is hugely negative: never stale)
+    from .c19 import fallback_break_only_when_stale
+    fallback_break_only_when_stale(ctx, "C03.R15")
 
 
 def r5(ctx: Ctx) -> None:
